@@ -301,7 +301,8 @@ Section Proofs.
       pose proof (ctl_last _ _ _ E C) as Last. pose proof (block_lt _ _ _ E) as Hb.
       set (L := N.to_nat l) in *.
       (* leading phis of the target in F' *)
-      set (X := if Nat.eqb L sb then pre ++ [mkI "jmp" [OLab base] []] else nth_block F L).
+      let b1 := eval unfold blk1, fixb in (blk1 L) in
+      match b1 with (if _ then map _ ?t else _) => pose (X := t) end.
       assert (LX : lead_phis X = lead_phis (nth_block F L) /\ (L = sb -> List.length (lead_phis (nth_block F L)) <= idx)).
       { unfold X. destruct (Nat.eqb_spec L sb) as [->|Nl].
         - destruct (lead_pre B idx _ (mkI "jmp" [OLab base] []) Hinv eq_refl eq_refl) as [A Bd]. split; [exact A|intros _; exact Bd].
@@ -314,7 +315,8 @@ Section Proofs.
       { unfold in_post. destruct (Nat.eqb_spec L sb) as [Es|]; [|reflexivity]. cbn. apply Nat.ltb_ge. auto. }
       assert (Goal : phi_vals (lead_phis (nth_block F' L)) (N.of_nat (pmb b pc)) e' = Some vs /\
                      List.length (lead_phis (nth_block F' L)) = List.length (lead_phis (nth_block F L))).
-      { rewrite F'_low by auto. unfold blk1. fold X. unfold fixb, pmb.
+      { rewrite F'_low by auto. unfold blk1, fixb, pmb.
+        fold X. fold sbN.
         destruct (in_post b pc) eqn:IP.
         - (* the jump is in the moved tail: the target is a successor, its phis were fixed *)
           unfold in_post in IP. apply andb_prop in IP. destruct IP as [Eb Lt]. apply Nat.eqb_eq in Eb. subst b. apply Nat.ltb_lt in Lt.
